@@ -139,6 +139,17 @@ class QuickSampler:
                 raise ValueError(
                     "Mismatch in number of modes between input and circuit."
                 )
+            # Threshold detection cannot report more than one herald photon
+            heralds = self.circuit.heralds["output"]
+            if (
+                heralds
+                and max(heralds.values()) > 1
+                and not self.photon_counting
+            ):
+                raise EmulatorError(
+                    "Non photon number resolving detectors cannot be used when"
+                    " a heralded mode has more than 1 photon."
+                )
             # For given input work out all possible outputs
             out_states = fock_basis(
                 len(self.input_state), self.input_state.n_photons
